@@ -191,12 +191,26 @@ def user_settings(cfg):
     return user
 
 
-def one_run(cfg, outdir, user=None):
+def one_run(cfg, outdir, user=None, rep_index=0, keep_output=False):
     import torch
     torch.set_num_threads(1)
     from nessai.flowsampler import FlowSampler
     install_recorder()
     model = make_angle_model() if cfg.get("model") == "angle" else make_model(cfg.get("allow_vectorised", True))
+    ck = cfg.get("checkpoint")
+    ck_its = []
+    if ck:
+        # identical likelihood values, but this run's calls take a little longer: wall-clock scheduled checkpoints
+        # fire at different iterations in the runs of the pair
+        delay = ck["sleep"][min(rep_index, len(ck["sleep"]) - 1)]
+        if delay:
+            import time
+            real_ll = model.log_likelihood
+
+            def slow_ll(x, _f=real_ll, _d=delay):
+                time.sleep(_d)
+                return _f(x)
+            model.log_likelihood = slow_ll
     if cfg.get("parallelise_prior"):
         model.parallelise_prior = True
     kw = dict(nlive=cfg.get("nlive", 50), plot=False, seed=cfg["seed"], signal_handling=False, output=outdir,
@@ -223,6 +237,21 @@ def one_run(cfg, outdir, user=None):
                   poolsize=cfg.get("poolsize", 100))
     else:
         kw.update(importance_nested_sampler=True, max_iteration=cfg.get("max_iteration", 3), min_samples=10)
+    if cfg.get("plots"):
+        # every plotting option the samplers offer (the final result plots of FlowSampler.run stay off)
+        kw["plot"] = True
+        if cfg["sampler"] == "std":
+            kw["proposal_plots"] = True          # ("all" raises KeyError: 'logL' in plot_live_points on the unchanged tree)
+        else:
+            kw.update(plot_pool=True, plot_training_data=True, plot_likelihood_levels=True, plotting_frequency=1)
+    if ck:
+        import pickle
+
+        def record_checkpoint(sampler, _l=ck_its):
+            _l.append(int(sampler.iteration))
+            pickle.dumps(sampler)                       # what the default checkpoint would serialise
+        kw.update(checkpointing=True, checkpoint_on_iteration=False, checkpoint_interval=ck["interval"],
+                  checkpoint_callback=record_checkpoint)
     try:
         fs = FlowSampler(model, **kw, **user)          # the user's objects themselves, not copies
         fs.run(plot=False, save=False, **(cfg.get("run_kwargs") or {}))
@@ -247,7 +276,8 @@ def one_run(cfg, outdir, user=None):
         if cfg["sampler"] == "ins" and getattr(ns, "final_samples_unit", None) is not None:
             parts["final_samples"] = h(ns.final_samples_unit)
         return {"parts": parts, "evals": evals, "iteration": int(ns.iteration), "sites": sorted(SITES),
-                "shared_settings": shared, "settings_diff": cfg_diff(before, user),
+                "shared_settings": shared, "settings_diff": cfg_diff(before, user), "checkpoint_iterations": ck_its,
+                "output_files_before": cfg.get("_files_before"),
                 "stopping_criterion": list(getattr(ns, "stopping_criterion", []) or []),
                 "requested_seed": cfg["seed"], "recorded_seed": None if ns.seed is None else int(ns.seed),
                 "vectorised": bool(getattr(model, "_vectorised_likelihood", None)), "n_pool": getattr(model, "n_pool", None),
@@ -256,7 +286,8 @@ def one_run(cfg, outdir, user=None):
         if pool is not None:
             pool.close()
             pool.join()
-        shutil.rmtree(outdir, ignore_errors=True)
+        if not keep_output:
+            shutil.rmtree(outdir, ignore_errors=True)
 
 
 def run_runs(job):
@@ -270,9 +301,14 @@ def run_runs(job):
     for cfg in job["runs"]:
         res = {"name": cfg["name"], "cfg": cfg, "reps": []}
         user = user_settings(cfg) if cfg.get("shared") else None       # ONE set of objects for every run of the group
-        for k in range(cfg.get("repeat", 1)):
+        n_rep = cfg.get("repeat", 1)
+        for k in range(n_rep):
+            reuse = bool(cfg.get("reuse_output"))
+            outdir = os.path.join(job["root"], cfg["name"] + ("_shared_dir" if reuse else f"_{k}"))
+            nfiles = sum(len(fs_) for _, _, fs_ in os.walk(outdir)) if os.path.isdir(outdir) else 0
+            cfg["_files_before"] = nfiles               # how many files the directory already holds when the run starts
             try:
-                res["reps"].append(one_run(cfg, os.path.join(job["root"], f"{cfg['name']}_{k}"), user))
+                res["reps"].append(one_run(cfg, outdir, user, rep_index=k, keep_output=reuse and k < n_rep - 1))
             except Exception as e:
                 import traceback
                 res["reps"].append({"error": type(e).__name__, "trace": traceback.format_exc()[-1500:]})
